@@ -32,12 +32,13 @@ Proof. exact refines_lemma. Qed.
 
 (* Refinement with renames: the same statement for the crash-free histories that meet NO KNOWN CLASS
    (FsKnown.kclasses - the narrow classes of known_findings.txt as gen/fam_fs.py decides them), over the
-   alphabet that also has the renames of regular files within one directory (onto a fresh name or over an
-   existing file): while the rename is pending, and after a directory sync flushed it, every observation -
+   alphabet that also has the renames of regular files (onto a fresh name or over an existing file): while
+   the rename is pending, and after a sync of the common directory flushed it, every observation -
    lookups of both names, listings, reads through handles opened on the new name, data syncs, unlink of
    the new name - is the observation of the plain POSIX tree.
    _partial - excluded beyond the known classes (FsKnown.v, [ksafe] / [c10r_op]): create_dir_all /
-   remove_dir_all; renames between two different directories; any creation of a file at a name a file
+   remove_dir_all; a sync of exactly one of the two directories of an unflushed rename between different
+   directories; any creation of a file at a name a file
    left earlier (FsSafe.KRecreate; the known finding Recreate is narrower); a rename onto a name a
    directory was removed from. *)
 Theorem c10_refines_renames_partial : forall l,
